@@ -129,8 +129,41 @@ func (rec *recordedBits) endGroup(i int, discard bool) {
 		return
 	}
 
+	if !discard {
+		rec.keepAborted(i)
+	}
+
 	rec.groups[i].end = len(rec.data)
 	rec.groups[i].discard = discard
+}
+
+// keepAborted handles groups opened inside group i which were never ended: they belong to a draw
+// aborted by a panic that was recovered later (e.g. a generator giving up inside a state machine action,
+// which is then skipped). To replay what happened, the data consumed by group i has to be kept as is,
+// so nothing inside it may be pruned.
+func (rec *recordedBits) keepAborted(i int) {
+	aborted := false
+	for _, g := range rec.groups[i+1:] {
+		if g.end < 0 {
+			aborted = true
+			break
+		}
+	}
+	if !aborted {
+		return
+	}
+
+	groups := rec.groups[:i+1]
+	for _, g := range rec.groups[i+1:] {
+		if g.end < 0 {
+			g.end = len(rec.data)
+		}
+		g.discard = false
+		if g.begin != g.end {
+			groups = append(groups, g)
+		}
+	}
+	rec.groups = groups
 }
 
 func (rec *recordedBits) prune() {
